@@ -1786,3 +1786,143 @@ func mentionsRedirOp(g *core.Func) bool {
 }
 
 func initOfEnclosingIfs(p *core.Program, n ast.Node, stop ast.Node) bool { return false }
+
+// ---------------------------------------------------------------------------
+// NL2: what the creator takes back from a nested lexer was given to it.
+
+func ruleNL2() Rule {
+	return Rule{ID: "NL2", Kind: "must", Floor: 3,
+		Doc: "every scalar field the creator copies back from a nested lexer after a successful nested parse (`l.f = ll.f`) is initialised in the nested lexer's literal from the creator's own field: a field left at its zero value and only conditionally recomputed (the position, which mark() leaves alone while alias text is being read) would come back as zero - and a zero position means `absent` to the grammar actions, so the `&` or `!` after a command substitution inside an alias value is lost",
+		Run: func(c *Ctx, rr *core.RuleResult) {
+			f := c.mustFn(rr, "parser.(*lexer).scanCmdSubst")
+			if f == nil {
+				return
+			}
+			info := f.Info()
+			// the nested literal and the variable it is bound to
+			var lit *ast.CompositeLit
+			var nested types.Object
+			f.OwnNodes(func(n ast.Node) bool {
+				cl, ok := n.(*ast.CompositeLit)
+				if !ok || lit != nil || namedTypeName(info.Types[cl].Type) != "parser.lexer" {
+					return true
+				}
+				lit = cl
+				for p := c.P.Parent(cl); p != nil; p = c.P.Parent(p) {
+					if as, isAs := p.(*ast.AssignStmt); isAs && len(as.Lhs) == 1 {
+						if id, isID := as.Lhs[0].(*ast.Ident); isID {
+							if nested = info.Defs[id]; nested == nil {
+								nested = info.Uses[id]
+							}
+						}
+						break
+					}
+				}
+				return true
+			})
+			if lit == nil || nested == nil {
+				rr.Unk(f, f.Name+"|nested lexer", f.Pos(), "no nested lexer literal bound to a variable found")
+				return
+			}
+			inits := map[*types.Var]ast.Expr{}
+			for _, el := range lit.Elts {
+				if kv, ok := el.(*ast.KeyValueExpr); ok {
+					if id, ok := kv.Key.(*ast.Ident); ok {
+						if v, ok := info.Uses[id].(*types.Var); ok {
+							inits[v] = kv.Value
+						}
+					}
+				}
+			}
+			n := 0
+			f.OwnNodes(func(x ast.Node) bool {
+				as, ok := x.(*ast.AssignStmt)
+				if !ok || len(as.Lhs) != 1 || len(as.Rhs) != 1 || as.Tok != token.ASSIGN {
+					return true
+				}
+				ls, ok1 := ast.Unparen(as.Lhs[0]).(*ast.SelectorExpr)
+				rs, ok2 := ast.Unparen(as.Rhs[0]).(*ast.SelectorExpr)
+				if !ok1 || !ok2 {
+					return true
+				}
+				fld := core.FieldOf(info, ls)
+				if fld == nil || core.FieldOf(info, rs) != fld {
+					return true
+				}
+				lid, ok1 := ast.Unparen(ls.X).(*ast.Ident)
+				rid, ok2 := ast.Unparen(rs.X).(*ast.Ident)
+				if !ok1 || !ok2 || !isRecv(f, info.Uses[lid]) || info.Uses[rid] != nested {
+					return true
+				}
+				n++
+				key := f.Name + "|" + fld.Name() + " taken back was handed over"
+				init := inits[fld]
+				fromRecv := false
+				if se, isSel := ast.Unparen(init).(*ast.SelectorExpr); init != nil && isSel {
+					if id, isID := ast.Unparen(se.X).(*ast.Ident); isID && isRecv(f, info.Uses[id]) && core.FieldOf(info, se) == fld {
+						fromRecv = true
+					}
+				}
+				if fromRecv {
+					rr.OK(f, key, as.Pos(), "handed-over", "initialised from the creator's field in the nested lexer's literal")
+				} else {
+					rr.Bad(f, key, as.Pos(), "`"+fld.Name()+"` is copied back from the nested lexer but was not given to it: while alias text is being read mark() does not set the position, so it comes back as the zero position and every later token of the alias loses its position (zero means `absent`: the `&` after `` `x` y & `` in an alias value is dropped)")
+				}
+				return true
+			})
+			if n == 0 {
+				rr.Unk(f, f.Name+"|copy-back", f.Pos(), "nothing is copied back from the nested lexer")
+			}
+		}}
+}
+
+// ---------------------------------------------------------------------------
+// HD7: the lexer does not stop with a here-document announced.
+
+func ruleHD7() Rule {
+	return Rule{ID: "HD7", Kind: "must", Floor: 1,
+		Doc: "when the lexer's state machine stops by itself (end of input before the line of a `<<` operator ended) the goroutine root tests whether a here-document is still announced and records an error; otherwise `cat <<E` at end of input is accepted with a nil error and a redirection that has no body",
+		Run: func(c *Ctx, rr *core.RuleResult) {
+			exists := c.mustFn(rr, "parser.(*heredoc).exists")
+			if exists == nil {
+				return
+			}
+			n := 0
+			seenRoot := map[*core.Func]bool{}
+			for _, g := range c.goRoots() {
+				t := g.Target
+				if t.Pkg.Name != "parser" || seenRoot[t] {
+					continue
+				}
+				seenRoot[t] = true
+				n++
+				info := t.Info()
+				key := t.Name + "|pending here-document at the end"
+				// a test of exists() after the last loop of the root's body, guarding a call that reaches the error recorder
+				ok := false
+				lastLoop := -1
+				for i, st := range t.Body.List {
+					if _, isFor := st.(*ast.ForStmt); isFor {
+						lastLoop = i
+					}
+				}
+				errFn := c.fn("parser.(*lexer).error")
+				for i, st := range t.Body.List {
+					if i <= lastLoop {
+						continue
+					}
+					if ifs, isIf := st.(*ast.IfStmt); isIf && c.callsFunc(info, ifs.Cond, exists) && errFn != nil && c.callsFunc(info, ifs.Body, errFn) {
+						ok = true
+					}
+				}
+				if ok {
+					rr.OK(t, key, t.Pos(), "tested", "a here-document still announced when the state machine stops is reported")
+				} else {
+					rr.Bad(t, key, t.Pos(), "the root never tests heredoc.exists() after its state machine has stopped: input ending right after `<<E` (no newline) is accepted with a nil error, the redirection keeps a nil body")
+				}
+			}
+			if n == 0 {
+				rr.Unkp(c.P, "parser|goroutine root", 0, "no goroutine root in package parser")
+			}
+		}}
+}
